@@ -446,3 +446,22 @@ package keeper
 //@   loop L1 invariant forall j int :: 0 <= j && j < len(list) ==> list[j] == rawget(PledgeDebt, itkey(j)) && itkey(j) == keyof(PledgeDebt, list[j].Sp)
 //@   loop L1 invariant forall j int :: 0 <= j && j < len(list) ==> contains(list, list[j])
 //@   loop L1 decreases [C02.getall.pledgedebt.term] itlen() - itpos()
+
+// Create / Reset: only a node's own account registers it or changes its registration; Reset grants the super role only with
+// full service status, the pledge threshold and the delegation share
+//@ func (msgServer) Create(goCtx, msg) (resp, err)
+//@   requires msg != nil
+//@   modifies Node[msg.Creator]
+//@   ensures [C10.create.self] err == nil ==> !old(has(Node, msg.Creator)) && has(Node, msg.Creator) && Node[msg.Creator].Creator == msg.Creator && Node[msg.Creator].Role == 0
+//@       && Node[msg.Creator].Status == 0 && len(Node[msg.Creator].TxAddresses) == 0
+//@   ensures [C10.create.err] err != nil ==> Node[msg.Creator] == old(Node[msg.Creator]) && (has(Node, msg.Creator) <==> old(has(Node, msg.Creator)))
+
+//@ func (msgServer) Reset(goCtx, msg) (resp, err)
+//@   requires msg != nil
+//@   modifies Node[msg.Creator]
+//@   ensures [C10.reset.self] err == nil ==> old(has(Node, msg.Creator)) && has(Node, msg.Creator) && Node[msg.Creator].Creator == msg.Creator
+//@   ensures [C20.reset.super] err == nil && Node[msg.Creator].Role == 1 ==> (Node[msg.Creator].Status & 15) == 15 && has(Pledge, msg.Creator)
+//@       && Pledge[msg.Creator].TotalStorage >= param(KeyVstorageThreshold) && shareOK(msg.Creator, Node[msg.Creator].Validator, 0, decFromStr(param(KeyShareThreshold)))
+//@   ensures [C20.reset.role] err == nil ==> Node[msg.Creator].Role == 0 || Node[msg.Creator].Role == 1
+//@   ensures [C10.reset.err] err != nil ==> Node[msg.Creator] == old(Node[msg.Creator]) && (has(Node, msg.Creator) <==> old(has(Node, msg.Creator)))
+//@   loop L1 invariant -1 <= rangeindex
